@@ -248,17 +248,17 @@ def obligations(tier):
     q = tier == "quick"
     depth = 3 if q else 4
     obs = []
-    firsts = [0, 4, 5, 6, 9] if q else list(range(11))
+    firsts = [0, 4, 5, 6, 9] if q else [0, 1, 4, 5, 6, 9]
     n = len(OPS)
     parts = [(0, 9), (9, 18), (18, n)] if q else [(i, i + 1) for i in range(n)]
     for first in firsts:
       for lo, hi in parts:
-        obs.append(Obligation("history-first%02d-second%02d" % (first, lo), mk_history(first, depth, lo, hi), 280 if q else 3000, functions=FUNCS,
+        obs.append(Obligation("history-first%02d-second%02d" % (first, lo), mk_history(first, depth, lo, hi), 280 if q else 1200, functions=FUNCS,
                               symbolic={"later operations": "%d indices over %d operations (second in [%d,%d))" % (depth - 1, len(OPS), lo, hi), "time step of 'wait'": "[0,400] s"},
                               concrete={"first operation": repr(OPS[first])}, stubs=["SimLoop (integer seconds)", "pipe-level driver", "fake remote with fixed base URI"]))
     # histories that start from two live registrations (a and b)
-    for first in ([16, 24] if q else range(n)):
-        obs.append(Obligation("history-from-two-first%02d" % first, mk_history(first, 2 if q else 3, 0, None, prefix=(4, 2)), 280 if q else 3000, functions=FUNCS,
+    for first in ([16, 24] if q else [0, 4, 12, 13, 16, 17, 22, 24, 25]):
+        obs.append(Obligation("history-from-two-first%02d" % first, mk_history(first, 2 if q else 3, 0, None, prefix=(4, 2)), 280 if q else 1200, functions=FUNCS,
                               symbolic={"later operations": "%d indices over %d operations" % (1 if q else 2, len(OPS)), "time step of 'wait'": "[0,400] s"},
                               concrete={"pre-state": "endpoint a (lt=60) and endpoint b registered", "first operation": repr(OPS[first])}))
     return obs
